@@ -34,15 +34,26 @@ ok = ck.proof_gate(["MirVerif.Props.C11"],
                    support_modules=["MirVerif.Model.BinIO", "MirVerif.Model.BinIORead"],
                    bridge_modules=["MirVerif.Lemmas.BridgeC11"],
                    exes=["mirdrv_c11"], translators=["c11_tables.py", "c11_cfun.py"])
+import c11_tables  # noqa: E402
 try:
-    import c11_tables
     TAB = c11_tables.load()
 except SystemExit:
-    TAB = None
-    ck.broken_ties.append({"kind": "translator", "name": "c11_tables.load"})
-if TAB is None or not os.path.exists(DRV):
-    ck.log("no tables or no driver: cannot run the correspondence")
+    # a reader fact is no longer recognised: the tie is broken (recorded), but the search still runs,
+    # with the canonical facts assumed for what could not be read, against the real-code oracles
+    try:
+        TAB = c11_tables.load(strict=False)
+        ck.broken_ties.append({"kind": "translator", "name": "c11_tables.load",
+                               "unrecognised": TAB["unrecognised"]})
+        ck.log("reader facts not recognised, canonical values assumed: %s" % TAB["unrecognised"])
+    except SystemExit:
+        TAB = None
+        ck.broken_ties.append({"kind": "translator", "name": "c11_tables.load (tables)"})
+if TAB is None:
+    ck.log("no tables: cannot run the correspondence")
     ck.finish()
+HAVE_DRV = os.path.exists(DRV)
+if not HAVE_DRV:
+    ck.log("no driver (lake build failed): only the real-code oracles are run")
 
 T = c11_gen.Tables(TAB)
 CFG = TAB["cfg"]
@@ -444,7 +455,10 @@ def process(cases, tag, exe=None, timeout=600):
                 cmds.append(("ctr", hr["RAW"]))
                 n += 1
         idx[c.id] = (k, n)
-    dres = run_driver(cmds) if cmds else []
+    if HAVE_DRV:
+        dres = run_driver(cmds) if cmds else []
+    else:
+        dres = [{"error": "no driver"} for _ in cmds]
     # (f) model-written bytes -> real reduce_encode -> real MIR_read must give the same modules
     rawc = []
     for c in cases:
@@ -882,6 +896,8 @@ def token_tie():
     p = subprocess.run([HARNESS, path], stdout=subprocess.PIPE, stderr=subprocess.PIPE, env=ENV, timeout=300,
                        preexec_fn=limits)
     ho = p.stdout.decode().split("\n")
+    if not HAVE_DRV:
+        return 0
     do = run_driver(din)
     n_ok = 0
     toks = []
@@ -989,6 +1005,9 @@ def shrink(case, sig, budget=40):
 # ---------------------------------------------------------------------------------------------
 # main
 # ---------------------------------------------------------------------------------------------
+REAL = [0]      # violations with a failing input
+
+
 def report(case, what, sig, det):
     rp = {"stage": "tie", "theorem_or_correspondence": "bin_roundtrip / MIR_write+MIR_read",
           "input": case.to_json(), "impl_output": {k: case.hr.get(k) for k in ("readerr", "text", "w2", "wcb", "readcb")
@@ -998,7 +1017,8 @@ def report(case, what, sig, det):
     k = ck.is_known(sig) if sig else None
     if k:
         stats["known"][sig] = stats["known"].get(sig, 0) + 1
-    ck.violation(rp, what=what, signature=sig)
+    if ck.violation(rp, what=what, signature=sig):
+        REAL[0] += 1
 
 
 def run_all(cases, exe=None, label="main"):
@@ -1066,13 +1086,18 @@ try:
             # assert-enabled flavour on a sample (mir_assert active in the writer)
             run_all(gen_cases(120, ck.rng, prefix="a") + unit_probes(), exe=HARNESS_ASSERT, label="assert")
             ck.stage("assert-flavour", t=round(time.time() - t0, 1))
-    # ties that broke: the model and the implementation disagree on a concrete input although the
-    # property itself is not violated by it -> reported with that input, marked no-failing-input-found
+    # ties that broke (model and implementation disagree on a concrete input, or a proof / translator
+    # obligation failed): when an input violating the property was found above, that is the verdict and
+    # the broken ties go to the evidence only; otherwise they are reported, marked no-failing-input-found
     seen = set()
+    suppressed = []
     for c, name, det in tie_breaks:
         if name in seen:
             continue
         seen.add(name)
+        if REAL[0]:
+            suppressed.append({"correspondence": name, "first_diff": str(det)[:400], "case": c.id if c is not None else None})
+            continue
         ck.violation({"stage": "tie", "theorem_or_correspondence": name,
                       "input": c.to_json() if c is not None else det,
                       "first_diff": det, "count": sum(1 for t in tie_breaks if t[1] == name),
@@ -1080,12 +1105,18 @@ try:
                      what="correspondence '%s' broke: model and implementation disagree (%s)" % (name, str(det)[:300]),
                      signature="C11:tie:" + name, found_input=False)
     if ck.broken_ties:
-        ck.violation({"stage": "proof", "broken": ck.broken_ties,
-                      "search": "token-level and module-level correspondences were run, see the other replays"},
-                     what="proof obligation no longer checks: " + "; ".join(
-                         str(b.get("kind")) + ":" + str(b.get("name", b.get("targets", ""))) for b in ck.broken_ties),
-                     found_input=False)
+        if REAL[0]:
+            suppressed += [{"obligation": str(b.get("kind")) + ":" + str(b.get("name", b.get("targets", "")))}
+                           for b in ck.broken_ties]
+        else:
+            ck.violation({"stage": "proof", "broken": ck.broken_ties,
+                          "search": "corpus, history, generated and token-level cases were run against the real "
+                                    "code; no input violating the property was found"},
+                         what="proof obligation no longer checks: " + "; ".join(
+                             str(b.get("kind")) + ":" + str(b.get("name", b.get("targets", ""))) for b in ck.broken_ties),
+                         found_input=False)
         ck.broken_ties = []
+    ck.cov["broken_ties_not_reported_separately"] = suppressed
 finally:
     shutil.rmtree(RUN, ignore_errors=True)
 
